@@ -507,6 +507,13 @@ pub fn run_c05(ctx: &mut Ctx, _known: &Known) {
             ("not (Q0 or Q1) and Q2", Box::new(|v: &[Tri]| t_and(&[t_not(t_or(&v[0..2])), v[2]]))),
             ("not (Q0 and Q1) or Q2", Box::new(|v: &[Tri]| t_or(&[t_not(t_and(&v[0..2])), v[2]]))),
             ("not Q0 and (not Q1 or not Q2)", Box::new(|v: &[Tri]| t_and(&[t_not(v[0]), t_or(&[t_not(v[1]), t_not(v[2])])]))),
+            // a parenthesised chain of the SAME operator on the right: operands stay in written order
+            ("not (Q0 and (Q1 and Q2 and Q3))", Box::new(|v: &[Tri]| t_not(t_and(&[v[0], t_and(&v[1..4])])))),
+            ("not ((Q1 and Q2 and Q3) and Q0)", Box::new(|v: &[Tri]| t_not(t_and(&[t_and(&v[1..4]), v[0]])))),
+            ("not (Q0 and (Q1 and Q2 and Q3) and Q4)", Box::new(|v: &[Tri]| t_not(t_and(&[t_and(&[v[0], t_and(&v[1..4])]), v[4]])))),
+            ("not (Q0 or (Q1 or Q2 or Q3))", Box::new(|v: &[Tri]| t_not(t_or(&[v[0], t_or(&v[1..4])])))),
+            ("Q0 and (Q1 and Q2 and Q3)", Box::new(|v: &[Tri]| t_and(&[v[0], t_and(&v[1..4])]))),
+            ("not (Q0 and (Q1 and Q2))", Box::new(|v: &[Tri]| t_not(t_and(&[v[0], t_and(&v[1..3])])))),
         ];
         for (text, table) in forms {
             let mut det = ids6.clone();
@@ -703,6 +710,16 @@ pub fn run_c07(ctx: &mut Ctx, _known: &Known) {
             string_case(ctx, vec![p.to_string()], &i_docs, &i_hays, &masks);
             string_case(ctx, vec![p.to_string(), "zq".to_string()], &i_docs, &i_hays, &masks);
             string_case(ctx, vec![p.to_string(), "izq*".to_string(), "?^zz".to_string()], &i_docs, &i_hays, &masks);
+        }
+    }
+    // regexes whose leading / trailing `.*` the optimiser strips: flags and anchors survive
+    {
+        let r_hays: Vec<String> = vec!["ab", "AB", "xaby", "XABY", "Ab", "a", "", "b", "ba", "xAb", "abab", "a\nb", "ab\n"].into_iter().map(|s| s.to_string()).collect();
+        let r_docs: Vec<Yaml> = r_hays.iter().map(|h| map1("f", ys(h))).collect();
+        for p in ["i?.*ab", "i?ab.*", "i?.*ab.*", "?.*ab", "?ab.*", "?.*ab.*", "i?^.*ab$", "i?.*a.*b.*", "?(?i).*ab", "i?.*AB", "i?.*[a]b.*", "?.*", "i?.*", "?.*ab$", "i?^ab.*"] {
+            string_case(ctx, vec![p.to_string()], &r_docs, &r_hays, &masks);
+            string_case(ctx, vec![p.to_string(), "zq".to_string()], &r_docs, &r_hays, &masks);
+            string_case(ctx, vec![p.to_string(), "i?.*zq".to_string()], &r_docs, &r_hays, &masks);
         }
     }
     // lists of two (all pairs in thorough; a deterministic slice in quick), three and four
@@ -999,6 +1016,95 @@ pub fn run_c09(ctx: &mut Ctx, _known: &Known) {
                         }
                     }
                 }
+            }
+        }
+    }
+    // (1c) documents held in Rust integer types of every width and signedness (HashMap<String, T>):
+    //      the relation is about the mathematical value, whatever the type
+    {
+        use std::collections::HashMap;
+        macro_rules! typed {
+            ($t:ty, $vals:expr, $out:expr) => {
+                for v in $vals {
+                    let mut hm: HashMap<String, $t> = HashMap::new();
+                    hm.insert("f".to_string(), v as $t);
+                    $out.push((stringify!($t), v as i128, Box::new(hm) as Box<dyn tau_engine::Document>));
+                }
+            };
+        }
+        let mut tdocs: Vec<(&str, i128, Box<dyn tau_engine::Document>)> = vec![];
+        typed!(i8, [-128i64, -1, 0, 5, 127], tdocs);
+        typed!(i16, [-32768i64, -1, 0, 5], tdocs);
+        typed!(i32, [-2147483648i64, -1, 0, 5], tdocs);
+        typed!(i64, [i64::MIN, -1, 0, 5, i64::MAX], tdocs);
+        typed!(isize, [isize::MIN as i64, -5, -1, 0, 5, isize::MAX as i64], tdocs);
+        typed!(u8, [0i64, 5, 255], tdocs);
+        typed!(u16, [0i64, 5, 65535], tdocs);
+        typed!(u32, [0i64, 5, 4294967295], tdocs);
+        typed!(u64, [0i64, 5, i64::MAX], tdocs);
+        typed!(usize, [0i64, 5, i64::MAX], tdocs);
+        for (key, pat, rel, c) in [("f", ">0", ">", 0i128), ("f", ">=0", ">=", 0), ("f", "<0", "<", 0), ("f", "=-1", "=", -1), ("f", "<=-1", "<=", -1), ("f", "=5", "=", 5),
+            ("int(f)", "<0", "<", 0), ("int(f)", ">=0", ">=", 0), ("f", ">-6", ">", -6), ("f", "<-4", "<", -4)] {
+            for cond in ["A", "not A"] {
+                let text = format!("detection:\n  A:\n    {}: '{}'\n  condition: {}\ntrue_positives: []\ntrue_negatives: []\n", key, pat, cond);
+                let rule = match tau_engine::Rule::from_str(&text) {
+                    Ok(r) => r,
+                    Err(_) => continue,
+                };
+                let opt = rule.clone().optimise(crate::implside::opts(15));
+                for (ty, v, d) in tdocs.iter() {
+                    ctx.evaluations += 1;
+                    ctx.nontrivial.insert(hash_str(&format!("typed{}{}{}{}{}", key, pat, cond, ty, v)));
+                    let truth = holds(rel, cmp_exact(&NumV::I(*v), &NumV::I(c)));
+                    let want = if cond == "A" { truth } else { !truth };
+                    for (rn, rl) in [("unoptimised", &rule), ("optimised", &opt)] {
+                        let got = rl.matches(d.as_ref());
+                        if got != want {
+                            let dummy = ctx.exchange("tok s:");
+                            ctx.violation("oracle", &format!("{} rule `{}: '{}'` ({}) on f = {} held as {}: engine {}, the relation says {}", rn, key, pat, cond, v, ty, got, want), &dummy, &text, true);
+                        }
+                    }
+                }
+            }
+        }
+        // str(f) of a typed integer is its decimal text
+        for (pat, want_v) in [("-5", -5i128), ("5", 5), ("-1", -1), ("0", 0)] {
+            let text = format!("detection:\n  A:\n    str(f): '{}'\n  condition: A\ntrue_positives: []\ntrue_negatives: []\n", pat);
+            if let Ok(rule) = tau_engine::Rule::from_str(&text) {
+                for (ty, v, d) in tdocs.iter() {
+                    ctx.evaluations += 1;
+                    let got = rule.matches(d.as_ref());
+                    if got != (*v == want_v) {
+                        let dummy = ctx.exchange("tok s:");
+                        ctx.violation("oracle", &format!("`str(f): '{}'` on f = {} held as {}: engine {}", pat, v, ty, got), &dummy, &text, true);
+                    }
+                }
+            }
+        }
+    }
+    // (1d) a NUMBER written under a str() key is the pattern of its shortest decimal text (2.0 is
+    //      "2"): the rule `str(f): 2.0` and the rule `str(f): '2'` give the same results
+    {
+        let fvals: Vec<Yaml> = vec![Yaml::Number(2.0f64.into()), Yaml::Number(2u64.into()), ys("2"), ys("2.0"), Yaml::Number(100.0f64.into()), ys("100"), Yaml::Number(2.5f64.into()), ys("2.5"),
+            Yaml::Number(1e21f64.into()), ys("1000000000000000000000"), ys("1e21"), Yaml::Number((-0.0f64).into()), ys("-0"), ys("0"), Yaml::Number(0u64.into()), Yaml::Bool(true), ys("true")];
+        let sdocs: Vec<Yaml> = fvals.iter().map(|v| map1("f", v.clone())).collect();
+        for x in [2.0f64, 100.0, 2.5, 1e21, -0.0, 0.5, 1e-7, 123456789.0] {
+            let as_text = format!("{}", x);
+            let mut results: Vec<Vec<String>> = vec![];
+            for idv in [map1("str(f)", Yaml::Number(x.into())), map1("str(f)", ys(&format!("\"{}\"", as_text))),
+                        map1("str(f)", Yaml::Sequence(vec![Yaml::Number(x.into()), ys("zq")])), map1("str(f)", Yaml::Sequence(vec![ys(&format!("\"{}\"", as_text)), ys("zq")]))] {
+                let cs = case(vec![("A".into(), idv), ("condition".into(), ys("A"))], sdocs.clone(), masks.clone());
+                let (_ex, parsed) = run_rule_case(ctx, &cs, false);
+                if let Some(p) = parsed {
+                    if p.load == "ok" {
+                        results.push(tri_of(&p, 0));
+                        ctx.nontrivial.insert(hash_str(&format!("strnum{}{}", x, results.len())));
+                    }
+                }
+            }
+            if results.len() == 4 && (results[0] != results[1] || results[2] != results[3]) {
+                let dummy = ctx.exchange("tok s:");
+                ctx.violation("oracle", &format!("`str(f): {:?}` (a number) and `str(f): '\"{}\"'` (its text) give different results: {:?} vs {:?}", x, as_text, results[0], results[1]), &dummy, "", true);
             }
         }
     }
@@ -1642,6 +1748,51 @@ pub fn run_c10(ctx: &mut Ctx, _known: &Known) {
             }
         }
     }
+    // a NEGATED nested mapping: `not A` is true exactly when the block holds for no element (array),
+    // does not hold (object), or the field is something else — also after optimisation
+    {
+        let ndocs: Vec<(Yaml, Option<bool>)> = vec![
+            (map1("a", Yaml::Sequence(vec![map1("b", Yaml::Number(1u64.into())), map1("b", Yaml::Number(2u64.into()))])), Some(true)),
+            (map1("a", Yaml::Sequence(vec![map1("b", Yaml::Number(2u64.into())), map1("b", Yaml::Number(3u64.into()))])), Some(false)),
+            (map1("a", Yaml::Sequence(vec![])), Some(false)),
+            (map1("a", Yaml::Number(5u64.into())), Some(false)),
+            (map1("a", map1("b", Yaml::Number(1u64.into()))), Some(true)),
+            (map1("a", map1("b", Yaml::Number(2u64.into()))), Some(false)),
+            (map1("a", Yaml::Sequence(vec![ys("x"), map1("b", Yaml::Number(1u64.into()))])), Some(true)),
+            (map1("a", Yaml::Sequence(vec![Yaml::Sequence(vec![map1("b", Yaml::Number(1u64.into()))])])), Some(false)),
+        ];
+        let docs_n: Vec<Yaml> = ndocs.iter().map(|(d, _)| d.clone()).collect();
+        for (cond, neg) in [("A", false), ("not A", true), ("not (not A)", false), ("not A and B", true), ("B and not A", true)] {
+            let det = vec![("A".into(), map1("a", map1("b", Yaml::Number(1u64.into())))), ("B".into(), map1("a", ys("*"))), ("condition".into(), ys(cond))];
+            let c = case(det, docs_n.clone(), vec![0, 15, 3, 2]);
+            let (ex, parsed) = run_rule_case(ctx, &c, false);
+            let p = match parsed {
+                Some(p) if p.load == "ok" => p,
+                _ => continue,
+            };
+            for m in &p.masks {
+                if m.mask != 0 && ex.agree && cond.contains("not (not") {
+                    continue; // the recorded double-negation finding
+                }
+                for (j, (_, holds_)) in ndocs.iter().enumerate() {
+                    ctx.nontrivial.insert(hash_str(&format!("negnested{}{}", cond, j)));
+                    let inner = holds_.unwrap();
+                    // B (`a: '*'`) is true only for string values of a, which none of the documents has,
+                    // except through arrays holding a string
+                    let want = if cond.contains('B') { None } else { Some(if neg { !inner } else { inner }) };
+                    if let Some(w) = want {
+                        if (m.res[j].0 == "T") != w {
+                            ctx.violation("oracle", &format!("`{}` over the nested mapping a: {{b: 1}} (mask {}) on document {}: engine {}, 'some element satisfies it' gives {}", cond, m.mask, serde_yaml::to_string(&docs_n[j]).unwrap_or_default().replace('\n', " "), m.res[j].0, w), &ex, &rule_yaml(&c), true);
+                            break;
+                        }
+                    } else if m.mask != 0 && m.res[j].0 != p.masks[0].res[j].0 && !ex.agree {
+                        ctx.violation("oracle", &format!("`{}` (mask {}): optimised result {} differs from the plain result {}", cond, m.mask, m.res[j].0, p.masks[0].res[j].0), &ex, &rule_yaml(&c), true);
+                        break;
+                    }
+                }
+            }
+        }
+    }
     // multi-level nested mappings: arrays of objects at intermediate levels, every switch mask
     let k3 = budget(ctx, 150, 3000);
     for i in 0..k3 {
@@ -1781,6 +1932,70 @@ fn c17_fixed(ctx: &mut Ctx) {
                         let j = (0..vs.len()).find(|j| b[which][*j] != got[which][*j]).unwrap_or(0);
                         ctx.violation("oracle", &format!("reordering the operands of `{}` changes whether it is true (mask {}, operand results {:?})", cond, [0, 15, 2, 3][which], vs[j]), &ex, &rule_yaml(&c), true);
                         break;
+                    }
+                }
+            }
+        }
+    }
+    // (a') mixed chains written WITHOUT parentheses: `or` binds tighter than `and`, so swapping the
+    //      operands of the `and` means swapping the two or-chains
+    for (t1, t2, k) in [
+        ("P0 and P1 or P2", "P1 or P2 and P0", 3usize),
+        ("P0 or P1 and P2 or P3", "P2 or P3 and P0 or P1", 4),
+        ("not P0 and P1 or P2", "P1 or P2 and not P0", 3),
+        ("P0 and P1 or P2 and P3", "P3 and P1 or P2 and P0", 4),
+        ("P0 or P1 and P2", "P2 and P0 or P1", 3),
+        ("P0 or P1 and P2", "P2 and P1 or P0", 3),
+    ] {
+        let vs = vectors(k);
+        let docs: Vec<Yaml> = vs.iter().map(|v| doc_for(v)).collect();
+        let mut got: Vec<Vec<Vec<bool>>> = vec![];
+        let mut exs = vec![];
+        for t in [t1, t2] {
+            let mut det = ids[..k].to_vec();
+            det.push(("condition".into(), ys(t)));
+            let c = case(det, docs.clone(), vec![0, 15]);
+            let (ex, parsed) = run_rule_case(ctx, &c, false);
+            if let Some(p) = parsed {
+                if p.load == "ok" {
+                    ctx.nontrivial.insert(hash_str(t));
+                    got.push([0u64, 15].iter().map(|m| tri_of(&p, *m).iter().map(|x| x == "T").collect()).collect());
+                    exs.push((ex, rule_yaml(&c)));
+                }
+            }
+        }
+        if got.len() == 2 && got[0] != got[1] {
+            let which = (0..2).find(|i| got[0][*i] != got[1][*i]).unwrap_or(0);
+            let j = (0..vs.len()).find(|j| got[0][which][*j] != got[1][which][*j]).unwrap_or(0);
+            ctx.violation("oracle", &format!("`{}` and `{}` (the operands of the and swapped) differ (mask {}, operand results {:?})", t1, t2, [0, 15][which], vs[j]), &exs[1].0, &exs[1].1, true);
+        }
+    }
+    // (a'') members of a list under a plain key, all(k) and of(k, n), every order: regexes that the
+    //       optimiser may rewrite to the same text, repeated members
+    {
+        let docs: Vec<Yaml> = ["xfoox", "foo", "xfoo", "foox", "bar", "foobar", "x", ""].iter().map(|h| map1("k", ys(h))).collect();
+        for members in [vec!["?.*foo", "?foo.*", "?bar"], vec!["?foo", "?foo", "?bar"], vec!["?.*foo.*", "?foo", "?.*bar"], vec!["*foo*", "*foo*", "*bar*"], vec!["i?.*FOO", "i?foo.*", "?x"]] {
+            for key in ["k", "all(k)", "of(k, 1)", "of(k, 2)", "of(k, 3)"] {
+                let mut base: Option<Vec<Vec<bool>>> = None;
+                for perm in permutations(&(0..members.len()).collect::<Vec<_>>()) {
+                    let seq: Vec<Yaml> = perm.iter().map(|&j| ys(members[j])).collect();
+                    let c = case(vec![("A".into(), map1(key, Yaml::Sequence(seq))), ("condition".into(), ys("A"))], docs.clone(), vec![0, 15, 4, 2]);
+                    let (ex, parsed) = run_rule_case(ctx, &c, false);
+                    let p = match parsed {
+                        Some(p) if p.load == "ok" => p,
+                        _ => break,
+                    };
+                    ctx.nontrivial.insert(hash_str(&ex.line));
+                    let got: Vec<Vec<bool>> = [0u64, 15, 4, 2].iter().map(|m| tri_of(&p, *m).iter().map(|t| t == "T").collect()).collect();
+                    match &base {
+                        None => base = Some(got),
+                        Some(b) => {
+                            if *b != got {
+                                let which = (0..4).find(|i| b[*i] != got[*i]).unwrap_or(0);
+                                ctx.violation("oracle", &format!("reordering the members {:?} under `{}` changes a verdict (mask {})", members, key, [0, 15, 4, 2][which]), &ex, &rule_yaml(&c), true);
+                                break;
+                            }
+                        }
                     }
                 }
             }
